@@ -162,6 +162,11 @@ class C13(Check):
             peer = rng.choice(['payload_then_benign', 'benign_then_payload'])
         case = {'mode': mode, 'chan': chan[0], 'role': role, 'payload': payload, 'prolog': prolog, 'peer': peer,
                 'pseed': rng.randrange(1 << 30)}
+        if role in ('included', 'imported', 'redefined') and rng.random() < 0.4:
+            case['part_locality'] = 'remote' if chan[1] in ('path', 'fileurl') else 'local'
+        if chan[1] in ('raw', 'buffered', 'textio', 'duck') and role in ('instance', 'instance_lazy', 'validate') \
+                and rng.random() < 0.15:
+            case['transient'] = rng.randrange(0, 200)     # one read fails once (e.g. a timeout), the next ones succeed
         return case
 
     # ------------------------------------------------------------------
@@ -220,7 +225,7 @@ class C13(Check):
                 peer.pages['http://sim.test/stream.xml'] = benign
                 peer.install()
                 res = self.attempt(xmlschema, world, peer, chan, use_mode, role, doc, benign, plan,
-                                   case['peer'], tns)
+                                   case['peer'], tns, case.get('part_locality'), case.get('transient'))
                 res['requests'] = list(peer.log)
                 return res
 
@@ -230,6 +235,9 @@ class C13(Check):
             finally:
                 events = self.monitor.stop()
             applies = self.applies(mode, chan, role)
+            if case.get('part_locality') and mode in ('remote', 'nonlocal'):
+                # the document that carries the payload is the PART: its own locality decides
+                applies = case['part_locality'] == 'remote'
             has_payload = payload not in BENIGN
             counters['applies_%s' % applies] = 1
             counters['payload_' + payload] = 1
@@ -248,6 +256,8 @@ class C13(Check):
                 if got['marker']:
                     violations.append({'signature': dict(sigbase, clause='entity-expanded', payload=payload),
                                        'detail': {'case': case, 'got': short(got)}})
+                elif case.get('transient') is not None and got['exc'] in ('InjectedOSError', 'XMLResourceOSError'):
+                    counters['transient_fault_surfaced'] = 1       # the read fault reached the caller: nothing was parsed
                 # S1: refused with the forbidden-resource error
                 elif case['peer'] != 'constant':
                     counters['reserve_outcome_' + (got['exc'] or 'parsed')] = 1   # which body was parsed is the peer's choice
@@ -284,7 +294,8 @@ class C13(Check):
             import shutil
             shutil.rmtree(world, ignore_errors=True)
         nontrivial = payload != 'benign_none' or not seekable or case['peer'] != 'constant'
-        skeleton = [mode, case['chan'], role, payload, prolog, pclass, case['peer']]
+        skeleton = [mode, case['chan'], role, payload, prolog, pclass, case['peer'], case.get('part_locality'),
+                    case.get('transient') is not None]
         return {'violations': violations, 'skeleton': skeleton, 'nontrivial': nontrivial, 'counters': counters,
                 'digest': core.stable_hash([got['exc'], got['marker'], got['tree']]),
                 'sample': {'case': case, 'outcome': got['exc'] or 'parsed', 'applies': applies}}
@@ -292,7 +303,8 @@ class C13(Check):
     def excused(self, case, chan, got):
         """Documented limits of the mechanism (never a different parse, only a refusal)."""
         name, kind, seekable, urlattr, base = chan
-        if kind in ('http', 'http_opener') and case['prolog'] in ('pad66k', 'subsetpad66k') and \
+        if (kind in ('http', 'http_opener') or case.get('part_locality') == 'remote') and \
+                case['prolog'] in ('pad66k', 'subsetpad66k') and \
                 got['exc'] in ('XMLResourceOSError', 'XMLResourceError', 'part-not-loaded'):
             return True      # a peer response is a non-seekable buffered stream: same 64 KiB limit
         if got['exc'] not in ('XMLResourceOSError', 'XMLResourceError'):
@@ -315,7 +327,8 @@ class C13(Check):
                 return {'sizes': [cut], 'rest': rng.choice([None, 3, 64])}, 'inside-entity-token'
         return simio.gen_plan(rng, doc)
 
-    def attempt(self, xmlschema, world, peer, chan, mode, role, doc, benign, plan, peerbeh, tns):
+    def attempt(self, xmlschema, world, peer, chan, mode, role, doc, benign, plan, peerbeh, tns,
+                part_locality=None, transient=None):
         """One construction under `mode`; returns exc class, marker presence, canonical tree."""
         name, kind, seekable, urlattr, base = chan
         bodies = {'constant': [doc], 'payload_then_benign': [doc, benign], 'benign_then_payload': [benign, doc]}[peerbeh]
@@ -340,6 +353,7 @@ class C13(Check):
                 k = {'textio': 'text'}.get(kind, kind)
                 d = data.decode('utf-8') if kind == 'textio' else data
                 return make_stream(k, d, plan=plan, seekable=seekable,
+                                   faults={'eio_once': transient} if transient is not None else None,
                                    url='http://sim.test/stream.xml' if urlattr else None)
             if kind in ('path', 'fileurl'):
                 p = os.path.join(world, fname)
@@ -389,8 +403,18 @@ class C13(Check):
                     main = ('<xs:schema xmlns:xs="http://www.w3.org/2001/XMLSchema">\n'
                             ' <xs:import namespace="urn:imp" schemaLocation="part.xsd"/>\n'
                             ' <xs:element name="main" type="xs:int"/>\n</xs:schema>')
-                source_for(doc, 'part.xsd', 'http://sim.test/part.xsd')
-                save = kind
+                part_ref = 'part.xsd'
+                if part_locality == 'remote':
+                    peer.pages['http://sim.test/other/part.xsd'] = bodies
+                    peer.plans['http://sim.test/other/part.xsd'] = plan
+                    part_ref = 'http://sim.test/other/part.xsd'
+                elif part_locality == 'local':
+                    with open(os.path.join(world, 'part.xsd'), 'wb') as fp:
+                        fp.write(doc)
+                    part_ref = 'file://' + os.path.join(world, 'part.xsd')
+                else:
+                    source_for(doc, 'part.xsd', 'http://sim.test/part.xsd')
+                main = main.replace('schemaLocation="part.xsd"', f'schemaLocation="{part_ref}"')
                 src = source_for(main.encode(), 'main.xsd', 'http://sim.test/main.xsd')
                 import warnings
                 with warnings.catch_warnings(record=True) as w:
